@@ -47,7 +47,7 @@ type Config struct {
 	Dir                   string   // database directory on FS (default "": the root of FS, as the pebble crash tests do)
 	GenesisHeight         uint32   // default 0
 	MaxTransactionsLength uint32   // payload size limit of a block, default 15 KiB (the engine default)
-	GenesisTimestamp      uint32   // default: now - 1_000_000 s rounded down to a slot boundary
+	GenesisTimestamp      uint32   // default: about now - 1_000_000 s, deliberately NOT a multiple of BlockTime (residue from Seed)
 	Seed                  int64    // key derivation seed
 	ExtraValidators       int      // additional key holders that are not in the genesis set (for validator changes)
 	GenesisEvents         []*blockchain.Event
@@ -172,8 +172,14 @@ func (cfg *Config) fill() error {
 		cfg.KeepEventsForHeights = &z
 	}
 	if cfg.GenesisTimestamp == 0 {
+		// NOT a multiple of the block time (BlockTime > 1): LIP-0014 counts slots from the genesis timestamp
+		// itself, and a slot calculator that silently assumes an aligned genesis must not pass unnoticed.
+		// The residue 1 .. BlockTime-1 is derived from the seed.
 		t := uint32(time.Now().Unix()) - 1_000_000
 		cfg.GenesisTimestamp = t - t%cfg.BlockTime
+		if cfg.BlockTime > 1 {
+			cfg.GenesisTimestamp += 1 + uint32(uint64(cfg.Seed)%uint64(cfg.BlockTime-1))
+		}
 	}
 	if cfg.Logger == nil {
 		cfg.Logger = NopLogger()
